@@ -374,7 +374,16 @@ def guard_sentinel(ctx, prog):
 
 guard_sentinel.rule_id = "C05.GUARD-sentinel"
 
-RULES = [wmc_user, guard_insert, pdom_release, bracket, guard_transitions, guard_sentinel]
+def dtab_necessity(ctx, prog):
+    R = "C05.DTAB-necessity"
+    ctx.rule(R, "is_necessary = !parents.is_empty() || !observers.is_empty() || force_necessary")
+    from .shared import necessity_table
+    necessity_table(ctx, prog, R)
+
+
+dtab_necessity.rule_id = "C05.DTAB-necessity"
+
+RULES = [wmc_user, guard_insert, pdom_release, bracket, guard_transitions, guard_sentinel, dtab_necessity]
 
 # control signature of the bookkeeping effects this property depends on (rules/ctrlsig.py)
 from .ctrlsig import make_rule as _ctrl_rule  # noqa: E402
